@@ -147,6 +147,32 @@ pub open spec fn wf_quant(o: Seq<LogicalOperand>, i: int, seen_opt: bool) -> boo
 pub open spec fn wf_row(r: GInst) -> bool { wf_ids(r.operands, 0) && wf_quant(r.operands, 0, false) }
 """
 
+# facts the parser relies on at its assert!/expect/index sites (C04), checked per row of the core table
+SPECIAL_SPEC = r"""
+// context-dependent literals occur only in OpConstant/OpSpecConstant after a leading result type;
+// (literal, label) pairs occur only in OpSwitch after a leading required IdRef (the selector)
+pub open spec fn special_from(o: Seq<LogicalOperand>, op: spirv::Op, j: int) -> bool
+    decreases o.len() - j,
+{
+    if j < 0 || j >= o.len() { true } else {
+        (o[j].kind == OperandKind::LiteralContextDependentNumber ==> ((op == spirv::Op::Constant || op == spirv::Op::SpecConstant)
+            && j >= 1 && o[0].kind == OperandKind::IdResultType && o[0].quantifier == OperandQuantifier::One))
+        && (o[j].kind == OperandKind::PairLiteralIntegerIdRef ==> (op == spirv::Op::Switch
+            && j >= 1 && o[0].kind == OperandKind::IdRef && o[0].quantifier == OperandQuantifier::One))
+        && special_from(o, op, j + 1)
+    }
+}
+pub proof fn special_at(o: Seq<LogicalOperand>, op: spirv::Op, lo: int, j: int)
+    requires special_from(o, op, lo), 0 <= lo <= j < o.len(),
+    ensures
+        o[j].kind == OperandKind::LiteralContextDependentNumber ==> ((op == spirv::Op::Constant || op == spirv::Op::SpecConstant)
+            && j >= 1 && o[0].kind == OperandKind::IdResultType && o[0].quantifier == OperandQuantifier::One),
+        o[j].kind == OperandKind::PairLiteralIntegerIdRef ==> (op == spirv::Op::Switch
+            && j >= 1 && o[0].kind == OperandKind::IdRef && o[0].quantifier == OperandQuantifier::One),
+    decreases j - lo,
+{ if lo < j { special_at(o, op, lo + 1, j); } }
+"""
+
 MACRO_INST = """macro_rules! inst {
     ($op:ident, [$( $cap:ident ),*], [$( $ext:expr ),*], [$( ($kind:ident, $quant:ident) ),*]) => {
         GInst {
@@ -253,6 +279,8 @@ def build_table(which, tier="quick", must_fail=False):
     g.raw("pub mod grammar {\nuse vstd::prelude::*;\nuse crate::spirv;")
     emit_grammar_types(g, core)
     g.raw(SPEC_TYPES % {"OPTY": OPTY, "MACRO": MACRO_INST if core else MACRO_EXT})
+    if core:
+        g.raw(SPECIAL_SPEC)
     # ---- R13: the table in spec mode (real row text; string literals interned) ---------------------
     interned = {}
 
@@ -316,6 +344,8 @@ def build_table(which, tier="quick", must_fail=False):
         ens = []
         ens.append(("row_%d().opcode == spirv::Op::%s" % (i, r["name"])) if core else ("row_%d().opcode == %du32" % (i, r["opcode"])))
         ens.append("wf_row(row_%d())" % i)
+        if core:
+            ens.append("special_from(row_%d().operands, row_%d().opcode, 0)" % (i, i))
         if must_fail and i == 1:
             ens.append("false")
         g.raw("// C09 row %d (%s): opcode as parsed, well-formedness\npub proof fn row_ok_%d()\n    ensures\n%s\n{\n%s\n}"
@@ -369,6 +399,8 @@ def build_table(which, tier="quick", must_fail=False):
     if snap is not None:
         g.raw("pub proof fn snapshot_len() ensures %d == %d /* rows in tree == rows in O4 snapshot */ {}" % (N, len(snap)))
     rowok = "pos_num(numof(row(i))) == i && wf_row(row(i)) && spirv::declared_%s(numof(row(i)))" % E
+    if core:
+        rowok += " && special_from(row(i).operands, row(i).opcode, 0)"
     CS = 25
     for c in range(0, N, CS):
         hi = min(c + CS, N)
@@ -496,6 +528,9 @@ pub fn table_ref() -> (r: &'static [%(R)s<'static>])
               "pub proof fn table_total_op(op: spirv::Op)\n    ensures 0 <= pos_num(op_num(op)) < %d, table()[pos_num(op_num(op))].opcode == op,\n{\n    match op {\n%s\n    }\n}" % (
                   N, "\n".join("        spirv::Op::%s => { table_total_op_%d(op); }" % (n_, chunk_of[n_]) for n_, _ in vs)))
         g.raw("pub proof fn op_num_small(op: spirv::Op) ensures op_num(op) < 0x10000 { op_num_is_cast(op); }")
+        g.raw("// exported to the parser units: the row of every opcode is well-formed and special-kind safe\n"
+              "pub proof fn row_shape(op: spirv::Op)\n    ensures ({ let r = table()[pos_num(op_num(op))]; r.opcode == op && wf_row(r) && special_from(r.operands, op, 0) }),\n"
+              "{ table_total_op(op); row_facts(pos_num(op_num(op))); }")
         g.raw("""// cast facts of row i, kept out of the lookup queries
 pub proof fn row_cast_facts(i: int)
     requires 0 <= i < table().len(),
